@@ -10,6 +10,10 @@ Strengthened slices (docs/STRENGTHEN_TASK.md; reference and alphabets in mc/ref/
                      oracle = sum of hyper-dual pair-term Hessians + finite differences on columns around 63..65 / 127..129
   C11.sequence       explicit-state search over words of HessianMatrix objects (constructed just in time / all alive) in forked children
   C11.matrix.single  N = 1;  C11.matrix.intparams also with EVERY numeric input integer-typed
+Round 4 (docs/STRENGTHEN_TASK2.md; helpers in mc/ref/c11y.py):
+  C11.forms            L5 / L1 / L4 / L7 / L8: storage forms of every input, decoy interaction parameters, r_c = sigma, epsilon = 0, A = 0, unwrapped positions
+  C11.outputs          the saving options and output names of diagonalize_hessian (coverage gaps: savehessian=False, saveevecs=False, outputfile=None)
+  C11.sequence.object  L6: ONE object called repeatedly with other interaction parameters / after in-place edits of its snapshot
 """
 import itertools
 import os
@@ -20,6 +24,7 @@ import numpy as np
 from mc import alphabets as A
 from mc.harness import Result, Sub
 from mc.ref import c11x as CX
+from mc.ref import c11y as CY
 from mc.ref import hessvec as HV
 from mc.ref.base import frac_tie_margin, minimg, mk_snap
 
@@ -43,6 +48,17 @@ ASSUMPTIONS = [
     "cutoff / rint decision of the configuration has a margin >= 1e-6 (the jitter table is advanced until it has)",
     "masses is a mapping species -> mass: the order in which its keys were inserted and entries for species that do not occur must not "
     "matter (C11.matrix.massorder, C11.scale rotate through ascending / descending / rotated / extra-entry dicts)",
+    "round 4 - C11.forms: parameter matrices may be float32 (then only float32 accuracy, 2e-6 relative, is demanded of the matrix) or int32; ppp may be a list / tuple / "
+    "any integer array (the code takes len(ppp)); positions may be Fortran-ordered or a strided view; species int32; masses numpy integer / float scalars; the "
+    "InteractionParams fields of the OTHER models are irrelevant for the requested model; LJ / IPL may be cut exactly at r_c = sigma; epsilon = 0 for a species pair and an "
+    "explicit IPL prefactor A = 0 / 0.0 are legal (zero blocks / zero matrix; the default A applies only when A is not given); shiftpotential may be 0 / 1; positions that "
+    "differ by whole cell vectors along periodic axes describe the same configuration (L7)",
+    "round 4 - C11.outputs: diagonalize_hessian returns None; 'what is written' is defined by its options: <outputfile>.omega_PR.csv always, .evecs.npy iff saveevecs, "
+    ".hessianmatrix.npy iff savehessian; outputfile '' / None / omitted = the model name; the content of a file must not depend on which other files were requested",
+    "round 4 - C11.sequence.object: one HessianMatrix object may be asked repeatedly, with other interaction parameters and after its snapshot's position array was edited "
+    "in place; every call answers for the object's current content",
+    "round 4 - L9 (C11.dilation): with positions, cell, sigma and r_c multiplied by a common factor at fixed energies and masses the Hessian scales by 1/factor^2 (the "
+    "documented energies depend on r / sigma), at any absolute scale (2^-33, 2^27); tilted cells of absolute size 1e-10 are still tilted",
     "C11.sequence: each diagonalize_hessian call must produce the matrix of ITS OWN object (configuration, species, masses, "
     "parameters), whatever was constructed or computed before in the same process",
 ]
@@ -357,6 +373,13 @@ def run(case):
         rc, sig = rc_i.astype(float), sig_i.astype(float)
     unequal = masses[1] != masses[2]
     sg = {"d": d, "model": model, "unequal_masses": unequal, "eps_dtype": "int" if case["eps_int"] else "float"}
+    form = case.get("form")
+    fx = None
+    if form:
+        # round 4 (C11.forms): the same physical input stored / written in another way; the reference uses the VALUES actually handed over
+        fx = CY.apply_form(form, model, pos, types, ppp, eps, sig, rc, masses)
+        pos, eps, sig, rc, masses = fx["ref"]
+        sg["form"] = form
     if case.get("int_all"):
         sg["all_int"] = True
     if n == 1:
@@ -376,12 +399,19 @@ def run(case):
           "hertz": InteractionParams(ModelName.harmonic_hertz, harmonic_hertz_alpha=par.get("alpha", 0))}[model]
     snap = mk_snap(pos, H, types)
     sig_in, rc_in = (sig_i.copy(), rc_i.copy()) if case.get("int_all") else (sig.copy(), rc.copy())
+    ppp_in = ppp
+    if fx is not None:
+        from PyMatterSim.reader.reader_utils import SingleSnapshot
+
+        pos_in, types_in, ppp_in, eps_in, sig_in, rc_in, masses_in = fx["lib"]
+        snap = SingleSnapshot(snap.timestep, snap.nparticle, types_in, pos_in, snap.boxlength, snap.boxbounds, snap.realbounds, snap.hmatrix)
+        ip = CY.interaction(model, par, fx["decoy"])
     out = "" if case["defname"] else "hx"
     name = {"lj": "lennard_jones", "ipl": "inverse_power_law", "hertz": "harmonic_hertz"}[model] if case["defname"] else "hx"
     for suf in (".hessianmatrix.npy", ".evecs.npy", ".omega_PR.csv"):
         if os.path.exists(name + suf):
             os.remove(name + suf)
-    h = HessianMatrix(snap, masses_in, eps_in, sig_in, rc_in, ppp, shift)
+    h = HessianMatrix(snap, masses_in, eps_in, sig_in, rc_in, ppp_in, int(shift) if form == "shift_int" else shift)
     h.diagonalize_hessian(ip, saveevecs=True, savehessian=True, outputfile=out)
     missing = [suf for suf in (".hessianmatrix.npy", ".evecs.npy", ".omega_PR.csv") if not os.path.exists(name + suf)]
     if missing:
@@ -400,7 +430,7 @@ def run(case):
     ref, K, npairs = HV.ref_hessian(pos, H, ppp, types, masses, eps, sig, rc, shift, model, par)
     scale = max(1.0, float(np.abs(ref).max()))
     # --- C11.matrix: analytic (hyper-dual) oracle, every entry
-    tol = 1e-9 * np.abs(ref) + 1e-11 * scale
+    tol = (1e-9 * np.abs(ref) + 1e-11 * scale) * (fx["tol"] if fx is not None else 1.0)
     bad = np.abs(M - ref) > tol
     if bad.any() or not np.isfinite(M).all():
         p, q = np.unravel_index(int(np.argmax(np.abs(M - ref))), M.shape)
@@ -422,6 +452,10 @@ def run(case):
     R.outcome({"M": M / scale, "om": om / np.sqrt(scale)}, nd=7)
     R.nontrivial = npairs >= 1 or n == 1
     R.elem = nd * nd * 2 + 3 * nd
+    if form:  # C11.forms reports under its own sub-check id
+        for v in R.viol:
+            if v:
+                v["sub"] = None
     return R
 
 # ------------------------------------------------------------------------------------------ strengthened slices
@@ -628,6 +662,321 @@ def run_sequence(case):
     return R
 
 
+# ------------------------------------------------------------------------------------------ round 4: forms, outputs, one object called repeatedly
+def gen_forms(tier, seed):
+    """L5 / L1 / L4: the same kind of input stored or written in another way (mc/ref/c11y.FORMS)"""
+    q = tier == "quick"
+    for d in (2, 3):
+        full = tuple([1] * d)
+        found, H = placements(seed, d, 3, full, "orth")
+        foundt, Ht = placements(seed, d, 3, full, "tri")
+        for form in CY.FORMS:
+            for gi, g in enumerate(((1, 1, 0), (1, 1, 1))):
+                for ti, types in enumerate(((1, 2, 1), (2, 2, 1), (1, 1, 1))):
+                    for ip in range(3 if q else 6):
+                        for shift in (True, False):
+                            for cell in ("orth", "tri"):
+                                if q and (gi + ti + ip + int(shift) + (cell == "tri")) % 2:
+                                    continue  # quick: half fraction (every pair of factor levels still occurs)
+                                if form == "rc_eq_sigma" and POTS[ip][0] == "hertz":
+                                    continue  # Hertz always has r_c = sigma
+                                pot = POTS[ip]
+                                mask = full
+                                if form == "ipl_A0":
+                                    # L8: the prefactor given as an explicit zero (float / int): s = 0 * eps (sigma/r)^n, a zero matrix - not the default prefactor
+                                    if pot[0] != "ipl":
+                                        continue
+                                    pot = ("ipl", {"n": pot[1]["n"], "A": 0.0 if shift else 0})
+                                if form == "unwrapped_partial":
+                                    mask = tuple([1] + [0] * (d - 2) + [0]) if d == 2 else (1, 0, 1)
+                                if form in ("unwrapped", "unwrapped_partial"):
+                                    fm, Hm = placements(seed, d, 3, mask, cell)
+                                    pos = CY.unwrap(fm[g], Hm, mask)  # L7: particles displaced by whole cell vectors along the periodic axes
+                                    c = mk_case("forms", d, cell, Hm, pos.tolist(), types, mask, pot, MASSES[0], shift, graph=None)
+                                    c["form"] = form
+                                    yield c
+                                    continue
+                                pos = np.array((found if cell == "orth" else foundt)[g])
+                                if form == "origin":
+                                    pos = pos - pos[0]  # particle 0 exactly at the origin of the cell (rigid translation; fully periodic)
+                                elif form == "face":
+                                    pos = pos - np.array([pos[1][0]] + [0.0] * (d - 1))  # particle 1 exactly on the face x = 0
+                                c = mk_case("forms", d, cell, H if cell == "orth" else Ht, pos.tolist(), types, full, pot, MASSES[0], shift, graph=None)
+                                c["form"] = form
+                                yield c
+
+
+OUT_OPTS = [(True, True), (True, False), (False, True), (False, False), None]  # (saveevecs, savehessian); None = the documented defaults (True, False)
+OUT_NAMES = ["", None, "hz", "run.v2"]  # '' and None: "default None to use model name"
+
+
+def gen_outputs(tier, seed):
+    for d in (2, 3):
+        found, H = placements(seed, d, 3, tuple([1] * d), "orth")
+        for g in ((1, 1, 0), (0, 0, 0)):
+            for ip in (0, 1, 2):
+                for types in ((1, 2, 1), (2, 2, 1)):
+                    for oi in range(len(OUT_OPTS)):
+                        for ni in range(len(OUT_NAMES)):
+                            c = mk_case("outputs", d, "orth", H, found[g], types, [1] * d, POTS[ip], MASSES[0], True, graph=g)
+                            c["opt"], c["name"] = oi, ni
+                            yield c
+
+
+def run_outputs(case):
+    """which files diagonalize_hessian writes for every combination of its saving options and output names, and that their content does not depend
+    on the options (differential: the call with everything saved, which C11.matrix compares with the definition) nor on anything but the inputs
+    (independent: hyper-dual reference spectrum)"""
+    import pandas as pd
+    from PyMatterSim.static.hessians import HessianMatrix
+
+    R = Result()
+    d = case["d"]
+    H = np.array(case["H"], float)
+    pos = np.array(case["pos"], float)
+    n = len(pos)
+    nd = n * d
+    types = [int(t) for t in case["types"]]
+    ppp = np.array(case["ppp"])
+    model, par = case["model"], case["par"]
+    masses = {int(k): float(v) for k, v in case["masses"].items()}
+    rc = np.array(RC)
+    sig = rc / RATIO[model]
+    eps = np.array(EPS)
+    opt = OUT_OPTS[case["opt"]]
+    oname = OUT_NAMES[case["name"]]
+    se, sh = opt if opt is not None else (True, False)
+    prefix = oname if oname else {"lj": "lennard_jones", "ipl": "inverse_power_law", "hertz": "harmonic_hertz"}[model]
+    sg = {"slice": "outputs", "d": d, "model": model, "saveevecs": se, "savehessian": sh, "defaults": opt is None,
+          "outputfile": "none" if oname is None else ("empty" if oname == "" else "name")}
+
+    def make():
+        return HessianMatrix(mk_snap(pos, H, types), dict(masses), eps.copy(), sig.copy(), rc.copy(), ppp, bool(case["shift"]))
+
+    # the fully saved call on a fresh object (its content is what C11.matrix compares with the definition)
+    CY.clean("hfull")
+    make().diagonalize_hessian(_ip(model, par), saveevecs=True, savehessian=True, outputfile="hfull")
+    full = _load(R, sg, "hfull", nd)
+    if full is None:
+        return R
+    Mf, Vf, tabf = full
+    for pf in (prefix, "None", ""):
+        CY.clean(pf)
+    kw = {} if opt is None else {"saveevecs": se, "savehessian": sh}
+    if oname is not None or case["opt"] % 2:
+        kw["outputfile"] = oname
+    # (outputfile omitted altogether in half of the None cases: the signature's default)
+    make().diagonalize_hessian(_ip(model, par), **kw)
+    want = CY.expected_files(prefix, se, sh)
+    for fn, must in want.items():
+        if os.path.exists(fn) != must:
+            R.fail(f"saveevecs={se}, savehessian={sh}, outputfile={oname!r}: file {fn} " + ("was not written" if must else "was written although it was not requested"),
+                   sig=dict(sg, clause="file_missing" if must else "file_unrequested"))
+    stray = [pf + suf for pf in ("None", "") for suf in CY.SUFFIXES if pf != prefix and os.path.exists(pf + suf)]
+    if stray:
+        R.fail(f"outputfile={oname!r}: files {stray} written instead of the model-name default", sig=dict(sg, clause="file_name"))
+    ref, K, npairs = HV.ref_hessian(pos, H, ppp, types, masses, eps, sig, rc, bool(case["shift"]), model, par)
+    scale = max(1.0, float(np.abs(ref).max()))
+    lam = np.linalg.eigvalsh(ref)
+    ncmp = 0
+    if os.path.exists(prefix + ".omega_PR.csv"):
+        tab = pd.read_csv(prefix + ".omega_PR.csv")
+        if list(tab.columns) != ["omega", "PR"] or len(tab) != nd:
+            R.fail(f"table {list(tab.columns)} x {len(tab)}", sig=dict(sg, clause="shape"))
+        else:
+            if not (np.array_equal(tab["omega"].values, tabf["omega"].values, equal_nan=True) and np.array_equal(tab["PR"].values, tabf["PR"].values, equal_nan=True)):
+                R.fail("omega_PR.csv depends on the saving options (differs from the table of the call that saves everything)", sig=dict(sg, clause="table_vs_full"),
+                       exp=tabf.values, obs=tab.values)
+            om = tab["omega"].values.astype(float)
+            big = lam > 1e-7 * scale
+            got2 = np.sort(om[np.isfinite(om) & (om > 0)] ** 2)
+            if int(big.sum()) and (len(got2) < int(big.sum()) or not np.allclose(got2[-int(big.sum()):], lam[big], rtol=1e-8, atol=1e-9 * scale)):
+                R.fail("omega^2 are not the positive eigenvalues of the mass-weighted second-derivative matrix (hyper-dual reference)", sig=dict(sg, clause="omega"),
+                       exp=np.sqrt(lam[big]), obs=om)
+            prv = tab["PR"].values.astype(float)
+            if not ((prv > 0).all() and (prv <= 1 + 1e-12).all()):
+                R.fail("participation ratio outside (0, 1]", sig=dict(sg, clause="pr_range"), obs=prv)
+            ncmp += 2 * nd
+    if se and os.path.exists(prefix + ".evecs.npy"):
+        V = np.load(prefix + ".evecs.npy")
+        if V.shape != (nd, nd) or not np.array_equal(V, Vf):
+            R.fail("saved eigenvectors depend on the saving options", sig=dict(sg, clause="evecs_vs_full"))
+        elif np.abs(ref @ V - V * np.array([float(V[:, k] @ ref @ V[:, k]) for k in range(nd)])[None, :]).max() > 1e-8 * scale:
+            R.fail("saved eigenvectors are not eigenvectors of the reference matrix", sig=dict(sg, clause="evecs"))
+        ncmp += nd * nd
+    if sh and os.path.exists(prefix + ".hessianmatrix.npy"):
+        M = np.load(prefix + ".hessianmatrix.npy")
+        if M.shape != (nd, nd) or not np.array_equal(M, Mf):
+            R.fail("saved matrix depends on the saving options", sig=dict(sg, clause="matrix_vs_full"))
+        elif (np.abs(M - ref) > 1e-9 * np.abs(ref) + 1e-11 * scale).any():
+            R.fail("saved matrix differs from the hyper-dual reference", sig=dict(sg, clause="matrix"), exp=ref, obs=M, sub="C11.matrix")
+        ncmp += nd * nd
+    for pf in (prefix, "None", "", "hfull"):
+        CY.clean(pf)
+    R.elem = ncmp + 3
+    R.outcome({"files": sorted(k for k, v in want.items() if v), "om": tabf["omega"].values / np.sqrt(scale)}, nd=7)
+    R.nontrivial = True
+    return R
+
+
+# ONE HessianMatrix object, diagonalize_hessian called repeatedly: with other interaction parameters, after the snapshot's position array was edited in place
+OBJ_IPS = [("lj", {}), ("ipl", {"n": 10.0, "A": 1.0}), ("ipl", {"n": 6.0, "A": 2.5}), ("hertz", {"alpha": 2.5}), ("hertz", {"alpha": 2.0})]
+
+
+def gen_object(tier, seed):
+    depth = 2 if tier == "quick" else 3
+    nl = 2 * len(OBJ_IPS)
+    for d in (2, 3):
+        for L in range(1, depth + 1):
+            for word in itertools.product(range(nl), repeat=L):
+                if L == 3 and d == 3 and len(set(word)) < 3:
+                    continue
+                yield {"word": list(word), "d": d, "seed": seed}
+
+
+def _obj_setup(d, seed):
+    found, H = placements(seed, d, 3, tuple([1] * d), "orth")
+    rc = np.array(RC)
+    # sigma = r_c for every model (Hertz requires it; LJ / IPL are then potentials cut exactly where sigma sits)
+    return {"H": np.array(H), "pos": [np.array(found[(1, 1, 0)]), np.array(found[(1, 1, 1)])], "types": [1, 2, 1], "masses": {1: 1.0, 2: 3.0}, "rc": rc, "sig": rc.copy(), "eps": np.array(EPS)}
+
+
+def _obj_child(case):
+    from PyMatterSim.static.hessians import HessianMatrix
+
+    c = _obj_setup(case["d"], case["seed"])
+    d = case["d"]
+    snap = mk_snap(c["pos"][0], c["H"], c["types"])
+    h = HessianMatrix(snap, dict(c["masses"]), c["eps"].copy(), c["sig"].copy(), c["rc"].copy(), np.array([1] * d), True)
+    cur = 0
+    outs = []
+    for k in case["word"]:
+        ipi, var = k % len(OBJ_IPS), k // len(OBJ_IPS)
+        if var != cur:
+            snap.positions[...] = c["pos"][var]  # in-place edit of the array the object holds
+            cur = var
+        model, par = OBJ_IPS[ipi]
+        h.diagonalize_hessian(_ip(model, par), saveevecs=True, savehessian=True, outputfile="ho")
+        R = Result()
+        got = _load(R, {}, "ho", 3 * d)
+        outs.append(None if got is None else {"M": got[0].tolist(), "om": [None if not np.isfinite(v) else float(v) for v in got[2]["omega"].values]})
+    return outs
+
+
+def run_object(case):
+    R = Result()
+    d = case["d"]
+    import pandas  # noqa: F401  (imported here so that the forked children inherit the loaded modules)
+    from PyMatterSim.static import hessians  # noqa: F401
+
+    _obj_setup(d, case["seed"])  # warms the placement cache of this worker; the forked child inherits it
+    payload = CX.forked(_obj_child, case)
+    feat = {"slice": "sequence_object", "d": d}
+    if "err" in payload:
+        R.fail(f"call sequence {case['word']} on one object raised {payload['err']}", sig=dict(feat, clause="exception"))
+        return R
+    c = _obj_setup(d, case["seed"])
+    states = set()
+    for pos_, (k, got) in enumerate(zip(case["word"], payload["ok"])):
+        ipi, var = k % len(OBJ_IPS), k // len(OBJ_IPS)
+        model, par = OBJ_IPS[ipi]
+        sg = dict(feat, position="first" if pos_ == 0 else "later", model=model)
+        if pos_:
+            pk = case["word"][pos_ - 1]
+            sg["changed"] = sorted((["model_or_exponent"] if pk % len(OBJ_IPS) != ipi else []) + (["positions_in_place"] if pk // len(OBJ_IPS) != var else []))
+        if got is None:
+            R.fail(f"call #{pos_ + 1} of {case['word']}: output files missing or of the wrong shape", sig=dict(sg, clause="files"))
+            break
+        ref, _, npairs = HV.ref_hessian(c["pos"][var], c["H"], np.array([1] * d), c["types"], c["masses"], c["eps"], c["sig"], c["rc"], True, model, par)
+        M = np.array(got["M"])
+        scale = max(1.0, float(np.abs(ref).max()))
+        states.add((k, str(np.round(M / scale, 7).tolist())))
+        if (np.abs(M - ref) > 1e-9 * np.abs(ref) + 1e-11 * scale).any():
+            p, q_ = np.unravel_index(int(np.argmax(np.abs(M - ref))), M.shape)
+            R.fail(f"call #{pos_ + 1} of the sequence {[(OBJ_IPS[i % len(OBJ_IPS)], 'positions ' + str(i // len(OBJ_IPS))) for i in case['word']]} on ONE HessianMatrix object: saved matrix "
+                   f"entry [{p},{q_}] = {M[p, q_]!r}, second derivative of the energy for this call's model and the object's current positions = {ref[p, q_]!r}",
+                   sig=dict(sg, clause="matrix"), exp=ref, obs=M)
+            break
+        lam = np.linalg.eigvalsh(0.5 * (M + M.T))
+        om = np.array([np.nan if v is None else v for v in got["om"]], float)
+        big = lam > 1e-7 * scale
+        if big.any() and not np.allclose(np.sort(om[np.isfinite(om) & (om > 0)] ** 2)[-int(big.sum()):], lam[big], rtol=1e-8, atol=1e-9 * scale):
+            R.fail(f"call #{pos_ + 1} of {case['word']}: omega^2 are not the positive eigenvalues of the saved matrix", sig=dict(sg, clause="omega"))
+            break
+    R.elem = sum((3 * d) ** 2 for _ in case["word"])
+    R.states = len(states)
+    R.transitions = len(case["word"])
+    R.outcome(payload["ok"], nd=7)
+    return R
+
+
+# L9 absolute scale: positions, cell, sigma and r_c multiplied by 2^-33 / 2^27 at fixed energies and masses: the Hessian scales by 1/scale^2, omega by 1/scale,
+# the participation ratios are unchanged.  Compared with the library's own result on the undilated input (which C11.matrix compares with the definition).
+DILATIONS = [2.0 ** -33, 2.0 ** 27]
+
+
+def gen_dilation(tier, seed):
+    for si in range(len(DILATIONS)):
+        for d in (2, 3):
+            for cell in ("orth", "tri"):
+                for mask in (tuple([1] * d), tuple([1] + [0] * (d - 1))):
+                    found, H = placements(seed, d, 3, mask, cell)
+                    for g in ((1, 1, 0), (1, 1, 1)):
+                        for types in ((1, 2, 1), (2, 2, 1)):
+                            for ip in range(3):
+                                for shift in (True, False):
+                                    c = mk_case("dilation", d, cell, H, found[g], types, mask, POTS[ip], MASSES[0], shift, graph=g)
+                                    c["dil"] = si
+                                    yield c
+
+
+def run_dilation(case):
+    from PyMatterSim.static.hessians import HessianMatrix
+
+    R = Result()
+    d = case["d"]
+    H = np.array(case["H"], float)
+    pos = np.array(case["pos"], float)
+    n = len(pos)
+    nd = n * d
+    types = [int(t) for t in case["types"]]
+    ppp = np.array(case["ppp"])
+    model, par = case["model"], case["par"]
+    masses = {int(k): float(v) for k, v in case["masses"].items()}
+    rc = np.array(RC)
+    sig = rc / RATIO[model]
+    eps = np.array(EPS)
+    sc = DILATIONS[case["dil"]]
+    sg = {"slice": "dilation", "d": d, "model": model, "cell": case["cell"], "scale": "tiny" if sc < 1 else "huge", "masked": bool((ppp == 0).any())}
+    outs = []
+    for f in (1.0, sc):
+        h = HessianMatrix(mk_snap(pos * f, H * f, types), dict(masses), eps.copy(), sig * f, rc * f, ppp, bool(case["shift"]))
+        h.diagonalize_hessian(_ip(model, par), saveevecs=True, savehessian=True, outputfile="hd")
+        got = _load(R, sg, "hd", nd)
+        if got is None:
+            return R
+        outs.append(got)
+    (M0, V0, t0), (M1, V1, t1) = outs
+    scale = float(np.abs(M0).max())
+    if scale > 0 and (np.abs(M1 * sc * sc - M0) > 1e-9 * np.abs(M0) + 1e-11 * scale).any():
+        p, q = np.unravel_index(int(np.argmax(np.abs(M1 * sc * sc - M0))), M0.shape)
+        R.fail(f"all lengths x {sc}: saved matrix x scale^2 differs from the undilated matrix at [{p},{q}]: {M1[p, q] * sc * sc!r} vs {M0[p, q]!r}", sig=dict(sg, clause="matrix"),
+               exp=M0, obs=M1 * sc * sc)
+    lam0 = np.linalg.eigvalsh(0.5 * (M0 + M0.T))
+    om1 = t1["omega"].values.astype(float)
+    big = lam0 > 1e-7 * scale
+    got2 = np.sort(om1[np.isfinite(om1) & (om1 > 0)] ** 2) * sc * sc
+    if int(big.sum()) and (len(got2) < int(big.sum()) or not np.allclose(got2[-int(big.sum()):], lam0[big], rtol=1e-8, atol=1e-9 * scale)):
+        R.fail(f"all lengths x {sc}: omega^2 x scale^2 are not the positive eigenvalues of the undilated matrix", sig=dict(sg, clause="omega"), exp=np.sqrt(lam0[big]), obs=om1 * sc)
+    pr1 = t1["PR"].values.astype(float)
+    if not ((pr1 > 0).all() and (pr1 <= 1 + 1e-12).all()):
+        R.fail("participation ratio outside (0, 1]", sig=dict(sg, clause="pr_range"), obs=pr1)
+    R.elem = nd * nd + 2 * nd
+    R.outcome({"M": M0 / max(scale, 1e-300)}, nd=7)
+    R.nontrivial = scale > 0
+    return R
+
+
 def subs(tier, seed):
     q = tier == "quick"
     return [
@@ -650,6 +999,28 @@ def subs(tier, seed):
         Sub("C11.matrix.massorder", gen_massorder, run, rule="the masses dict {1: 1, 2: 3} written as {2: 3, 1: 1} and as {3: 7.5, 1: 1, 2: 3} (a mapping: key order "
             "and entries of absent species must not matter); N=3, three graphs x type maps x three potentials, 2D/3D"),
         Sub("C11.matrix.single", gen_single, run, rule="degenerate size N = 1 (no pair): d x d zero matrix, omega = 0, PR = 1; 2D/3D x species x potential x mask"),
+        Sub("C11.forms", gen_forms, run,
+            rule="L5 / L1 / L4: N=3, d in {2,3}, two contact graphs x type maps x potentials x shift x {orthogonal, triclinic}" + (" (half fraction)" if q else "") + " x INPUT FORMS "
+                 + str(CY.FORMS) + ": parameter matrices as float32 (tolerance 2e-6) / int32, ppp as list / tuple / int32, positions Fortran-ordered / strided view, species as int32, "
+                 "masses as numpy integer / float scalars, InteractionParams carrying the parameters of the OTHER models (positive and negative decoys), LJ / IPL cut exactly at "
+                 "r_c = sigma, a species pair with epsilon = 0, a particle exactly at the cell origin / on a cell face, particles displaced by whole cell vectors n H (n in {0,2,-3,4} per "
+                 "particle and axis, periodic axes only; full and partial masks), the IPL prefactor given as an explicit 0 / 0.0, shiftpotential as int; same oracles as C11.matrix",
+            bounds={"forms": CY.FORMS}),
+        Sub("C11.outputs", gen_outputs, run_outputs,
+            rule="every combination of (saveevecs, savehessian) in {T,F}^2 + the documented defaults x outputfile in {'', None, omitted, 'hz', 'run.v2'} x d in {2,3} x {interacting, "
+                 "non-interacting} placement x three potentials x two type maps: exactly the requested files appear under the right name (model name for '' / None), their content "
+                 "is bit for bit that of the call that saves everything, omega^2 = positive eigenvalues of the hyper-dual reference matrix, 0 < PR <= 1",
+            bounds={"options": 5, "names": OUT_NAMES}),
+        Sub("C11.sequence.object", gen_object, run_object,
+            rule="explicit-state search over words of length <= " + ("2" if q else "3") + " over 10 letters = 5 interaction parameter sets (LJ, IPL(10,1), IPL(6,2.5), Hertz 2.5, "
+                 "Hertz 2) x 2 position sets, all on ONE HessianMatrix object (sigma = r_c) whose snapshot position array is edited IN PLACE when the letter's position set "
+                 "differs from the current one; each word in a forked child; every call must save the matrix for ITS model and the object's CURRENT positions",
+            bounds={"depth": 2 if q else 3, "letters": 2 * len(OBJ_IPS)}),
+        Sub("C11.dilation", gen_dilation, run_dilation,
+            rule="L9 absolute scale: positions, cell, sigma and r_c multiplied by 2^-33 and 2^27 (exact), energies and masses fixed; N=3, d in {2,3} x {orthogonal, TILTED} x "
+                 "{periodic, one periodic axis} x two contact graphs x two type maps x three potentials x shift: saved matrix x scale^2 == undilated saved matrix (1e-9 relative), "
+                 "omega^2 x scale^2 == its positive eigenvalues, 0 < PR <= 1",
+            bounds={"scales": ["2^-33", "2^27"]}),
         Sub("C11.scale", gen_scale, run_scale,
             rule="SIZES: one fixed configuration per size, N in " + ("{8, 43} (3D: 24x24, 129x129) and {32, 33, 65} (2D: 64, 66, 130)" if q else
                  "{8, 21, 22, 43, 64, 85, 86} (3D: 24 .. 258) and {32, 33, 64, 65, 127, 128, 129} (2D: 64 .. 258)")
